@@ -41,6 +41,11 @@ def playback(drv, h_name, cfg, cap, wanted_descs):
         fm = re.search(r"fn (kani_concrete_playback_\w+)\(\)", code)
         if not fm:
             continue
+        prev = next((t for t in tests if t["test"] == fm.group(1)), None)
+        if prev:
+            # identical concrete values decide several checks: one test, several descriptions
+            prev["desc"] += " || " + (cm.group(2) if cm else "")
+            continue
         tests.append({"test": fm.group(1), "class": cm.group(1) if cm else "", "desc": cm.group(2) if cm else "",
                       "code": code})
     kani_failed = "VERIFICATION:- FAILED" in out
@@ -64,6 +69,7 @@ def playback(drv, h_name, cfg, cap, wanted_descs):
         r = drv.sh(cmd, cwd=drv.HARNESS, env=env, timeout=1800)
         t["native_output"] = r.stdout[-3000:]
         t["native_failed"] = ("test result: FAILED" in r.stdout) or ("panicked at" in r.stdout)
+        t["replay_build_error"] = "could not compile" in r.stdout
         pm = re.search(r"panicked at [^\n]*\n([^\n]*)", r.stdout)
         t["native_panic"] = pm.group(1).strip() if pm else None
         t["cmd"] = " ".join(cmd)
@@ -100,7 +106,7 @@ def confirm(drv, pid, r, fails):
                "kani_agrees": kani_failed, "tests": []}
         ok = False
         for t in tests:
-            if t["desc"] and t["desc"] not in f["desc"] and f["desc"] not in t["desc"]:
+            if t["desc"] and f["desc"].strip('"') not in t["desc"]:
                 continue
             rec["tests"].append({k: t.get(k) for k in ("test", "code", "cmd", "native_failed", "native_panic",
                                                        "valgrind_errors", "native_output")})
